@@ -260,6 +260,34 @@ Proof.
   unfold gully_load_derm, gully_prop_fine. units_unfold. cbn. repeat split; lra.
 Qed.
 
+(** the hypotheses of the two non-negativity theorems are satisfiable, on a generating step with
+    positive loads *)
+Definition gully_example_params : gully_params (T := R) :=
+  {| g_yearDisturbance := 1990; g_gullyEndYear := 2000; g_area := 1; g_averageGullyActivityFactor := 2;
+     g_annualAverageSedimentSupply := 36525; g_percentFine := 50; g_managementPracticeFactor := 1;
+     g_longtermRunoffFactor := 0; g_dailyRunoffPowerFactor := 0; g_sdrFine := 100; g_sdrCoarse := 50;
+     g_timestepInSeconds := 1000 |}.
+
+Example gully_hyps_satisfiable :
+  let p := gully_example_params in
+  (0 <= g_percentFine p <= 100 /\ 0 <= g_averageGullyActivityFactor p /\ 0 <= g_managementPracticeFactor p
+   /\ 0 <= g_annualAverageSedimentSupply p /\ 0 < g_timestepInSeconds p /\ 0 <= g_sdrFine p /\ 0 <= g_sdrCoarse p
+   /\ 0 < g_area p)
+  /\ (let o := sednet_gully_row gully_load_orig p (1, 1995, 500, 0) in
+      g_generatedFine o = 50 /\ g_generatedCoarse o = 50 /\ g_fineLoad o = 50 /\ g_coarseLoad o = 25)
+  /\ (let o := sednet_gully_row gully_load_derm p (1, 1995, 86400000, 4000) in
+      g_generatedFine o = 2 /\ g_generatedCoarse o = 2 /\ g_fineLoad o = 2 /\ g_coarseLoad o = 1).
+Proof.
+  cbv zeta. split; [cbn; repeat split; lra|]. split.
+  - rewrite gully_row_generating; [|lra|lra|cbn; lra].
+    rewrite (proj1 (gully_activity_spec gully_example_params 1995)) by (cbn; lra).
+    unfold gully_load_orig, gully_prop_fine, gully_daily_runoff_factor, gtb. units_unfold. cbn.
+    unfold Rltb. destruct (Rlt_dec 0 0); [lra|]. repeat split; field.
+  - rewrite gully_row_generating; [|lra|lra|cbn; lra].
+    rewrite (proj1 (gully_activity_spec gully_example_params 1995)) by (cbn; lra).
+    unfold gully_load_derm, gully_prop_fine. units_unfold. cbn. repeat split; field.
+Qed.
+
 (** ** whole runs *)
 Lemma sednet_gully_generic_run (calc : gully_export_fn (T := R))
   (yd ey area act supply pcf mpf ltrf drpf sdrf sdrc ts : R) (quickflow year annualRunoff annualLoad st : list R) :
